@@ -415,12 +415,12 @@ func (f *file) ReadDir(n int) ([]hackpadfs.DirEntry, error) {
 	if err != nil {
 		return nil, &hackpadfs.PathError{Op: "readdir", Path: f.path, Err: err}
 	}
-	start, end := f.offset, f.offset+int64(n)
-	if start > int64(len(dirNames)) {
-		start = int64(len(dirNames))
+	start, end := f.offset, int64(len(dirNames)) // n <= 0 returns all remaining entries
+	if start > end {
+		start = end
 	}
-	if n <= 0 || end > int64(len(dirNames)) {
-		end = int64(len(dirNames)) // n <= 0 returns all remaining entries
+	if n > 0 && int64(n) < end-start { // (compared this way round, a huge n cannot overflow)
+		end = start + int64(n)
 	}
 	if n > 0 && start == end {
 		return nil, io.EOF // no entries remain
